@@ -256,7 +256,15 @@ def run_levinson(case):
     r = r_from_reflections(case["r0"], ks)
     p = len(ks)
     rq = [Q(v) for v in r]
-    filt = levinson_durbin(rq) if case["order"] == "default" else levinson_durbin(rq, p)
+    if case["order"] != "default" and len(ks) % 2:
+      # the same lag list was first used with a larger order (zero extension): the recursion for
+      # this order is a function of the lags it is given now, not of what happened to the list before
+      levinson_durbin(rq, p + 2)
+      if rq != [Q(v) for v in r]:
+        raise Violation("levinson_durbin(r, order beyond the lags) changed the caller's list r to %s" % show(rq))
+      filt = levinson_durbin(rq)
+    else:
+      filt = levinson_durbin(rq) if case["order"] == "default" else levinson_durbin(rq, p)
   else:
     x = [fr(v) for v in case["blk"]]
     p = case["order"]
@@ -305,13 +313,18 @@ _OUT_SCALE = [Fraction(11, 10), Fraction(3, 2), Fraction(2), Fraction(101, 100),
 
 def _real(where):
   inside = _nz(st.one_of(st.fractions(min_value=Fraction(-7, 8), max_value=Fraction(7, 8), max_denominator=8),
-                         st.sampled_from([Fraction(99, 100), Fraction(-99, 100), Fraction(1, 2), Fraction(-1, 2)])))
+                         st.sampled_from([Fraction(99, 100), Fraction(-99, 100), Fraction(1, 2), Fraction(-1, 2)]),
+                         # as close to the circle as exact arithmetic allows: no numerical "almost one"
+                         # threshold may turn these into critical cases
+                         st.sampled_from([1 - Fraction(1, 10 ** 13), Fraction(1, 10 ** 13) - 1,
+                                          1 - Fraction(1, 10 ** 7), 1 - Fraction(1, 2 ** 60), Fraction(1, 10 ** 9) - 1])))
   if where == "in":
     return inside
   if where == "on":
     return _unit
   return st.one_of(inside.map(lambda r: 1 / r),
-                   st.sampled_from([Fraction(101, 100), Fraction(-101, 100), Fraction(2), Fraction(-2), Fraction(7)]))
+                   st.sampled_from([Fraction(101, 100), Fraction(-101, 100), Fraction(2), Fraction(-2), Fraction(7),
+                                    1 + Fraction(1, 10 ** 13), -1 - Fraction(1, 10 ** 9)]))
 
 
 def _pair(where):
